@@ -25,6 +25,7 @@ def declare(rep):
     rep.rule("C11.midpoint", "the node added by split_edge / merge_edge is at (x_a + x_b)/2 of the edge's own nodes", floor=2)
     rep.rule("C11.no-move", "no function in refine_mesh's closure mutates pos_ of an existing node", floor=20)
     rep.rule("C11.label-propagation", "split_edge gives each new face the type label of the parent face on its side", floor=4)
+    rep.rule("C11.winding-side", "split_edge orients the children of each parent face with that face's own normal and opposite node", floor=2)
     rep.rule("C11.selective", "split only if l2 > l_max^2, merge only if l2 < l_min^2 and can_be_merged, swap only if score < threshold; thresholds are squares of the constructor arguments", floor=5)
 
 
@@ -113,6 +114,7 @@ def run(rep, prog, tier):
             raise AnalysisBroken("%s: cannot summarise the prefix of %s_edge: %s" % (prog.loc(fn), which, e))
     no_move(rep, prog)
     labels(rep, prog, split)
+    winding_sides(rep, prog, split)
     selective(rep, prog)
 
 
@@ -177,6 +179,11 @@ def labels(rep, prog, split):
             a = strip(call_args(n)[0])
             if o.get("k") == "CXXMemberCallExpr" and o.get("callee") == "cell::get_face":
                 idv = strip(call_args(o)[0])
+                if idv.get("k") == "DeclRefExpr" and a.get("k") != "DeclRefExpr" and idv["ref"]["did"] in side:
+                    n_sites += 1
+                    rep.violation("C11.label-propagation", prog, split, n, "label of face %s is not a value saved from the parent face" % idv["ref"]["name"],
+                                  "%s: the label given to the new face must be the parent triangle's label read BEFORE the parent is deleted (a local initialised from f_k.get_local_face_type_id()); here it is the expression %s, evaluated after delete_face/create_face have recycled the parent's slot" % (short(n, 70), short(a, 60)))
+                    continue
                 if idv.get("k") == "DeclRefExpr" and a.get("k") == "DeclRefExpr":
                     n_sites += 1
                     s = side.get(idv["ref"]["did"], set())
@@ -187,9 +194,62 @@ def labels(rep, prog, split):
                         rep.violation("C11.label-propagation", prog, split, n, "face %s receives the label of the other side" % idv["ref"]["name"],
                                       "%s: face %s is created on the side of one parent triangle but receives '%s', the label of %s: the face-type label is not passed on to the triangles the split divides the parent into"
                                       % (short(n, 70), idv["ref"]["name"], a["ref"]["name"], "the other parent" if want is not None else "an unrelated value"))
+    dels = [n for n in walk(split["body"]) if n.get("k") == "CXXMemberCallExpr" and n.get("callee", "").startswith("cell::delete_face")]
+    for did, fdid in lab.items():
+        d = [v for v in walk(split["body"]) if v.get("k") == "Var" and v.get("did") == did][0]
+        if dels and fi.order[id(d)] > min(fi.order[id(x)] for x in dels):
+            rep.violation("C11.label-propagation", prog, split, d, "label %s read after the parent face was deleted" % d["name"], "'%s' is read from the parent face after delete_face: the slot may already describe another face" % d["name"])
     created = {d for d in side}
     if n_sites < len(created) or n_sites == 0:
         rep.violation("C11.label-propagation", prog, split, None, "%d of %d new faces labelled" % (n_sites, len(created)), "split_edge creates %d faces but labels only %d of them: the others silently get face type 0" % (len(created), n_sites))
+
+
+def winding_sides(rep, prog, split):
+    """each orientation test of split_edge uses the opposite node AND the normal of the same parent face, and the
+    faces created under it are built on that parent's opposite node"""
+    fi = prog.index(split)
+    def side_of_local(did, seen=None):
+        """set of parent-face variable dids a local's value derives from"""
+        seen = seen or set()
+        if did in seen:
+            return set()
+        seen.add(did)
+        out = set()
+        for v in walk(split["body"]):
+            if v.get("k") == "Var" and v.get("did") == did and isinstance(v.get("init"), dict):
+                for x in walk(v["init"]):
+                    if x.get("k") == "CXXMemberCallExpr" and x.get("callee") in ("face::get_opposite_node", "face::get_normal"):
+                        o = strip(call_obj(x))
+                        if o.get("k") == "DeclRefExpr":
+                            out.add(o["ref"]["did"])
+                    if x.get("k") == "DeclRefExpr" and x["ref"].get("dk") == "Var" and x["ref"]["did"] != did:
+                        out |= side_of_local(x["ref"]["did"], seen)
+        return out
+    n_tests = 0
+    for n in walk(split["body"]):
+        if n.get("k") != "IfStmt":
+            continue
+        creates = [x for x in walk(n) if x.get("k") == "CXXMemberCallExpr" and x.get("callee") == "cell::create_face"]
+        if not creates:
+            continue
+        n_tests += 1
+        cs = set()
+        for x in walk(n["cond"]):
+            if x.get("k") == "DeclRefExpr" and x["ref"].get("dk") == "Var":
+                cs |= side_of_local(x["ref"]["did"])
+        bs = set()
+        for c in creates:
+            for a in call_args(c):
+                a = strip(a)
+                if a.get("k") == "DeclRefExpr":
+                    bs |= side_of_local(a["ref"]["did"])
+        if len(cs) == 1 and bs == cs:
+            rep.ok("C11.winding-side", prog, split, n, "orientation test and the faces created under it all refer to one parent face")
+        else:
+            rep.violation("C11.winding-side", prog, split, n, "orientation test mixes the two parent faces",
+                          "the orientation test at line %s uses quantities of %d parent face(s) and creates faces on %d side(s): the opposite node, the reference normal and the new faces must all belong to the same parent triangle, otherwise the children of the other triangle get a reversed winding when the two triangles are folded by more than 90 degrees" % (n.get("l"), len(cs), len(bs)))
+    if n_tests != 2:
+        rep.violation("C11.winding-side", prog, split, None, "%d orientation tests" % n_tests, "split_edge must orient the children of each of the two parent faces (2 tests), found %d" % n_tests)
 
 
 def selective(rep, prog):
